@@ -28,7 +28,7 @@ RULE = ("create_cooler(ordered=False): regression corpus (D9: 2 or 3 chunks with
         "chromosomes), both storage modes, columns count / count+x, mergebuf 1..N+1, max_merge 1..k+1, unsorted chunks with ensure_sorted, empty chunks; all chunk orders of "
         "3-chunk inputs; `cooler load -f coo` and `cooler cload pairs` with --chunksize 1..4, --max-merge, --mergebuf, --temp-dir; edges of the first merge pass observed "
         "with delete_temp=False; np.linspace edge lists for n <= 5000 checked admissible; merge_breakpoints at function level on every family of 1..2 monotone index "
-        "arrays of length 2..3 (increments 0..2) x bufsize 1..nnz+1 plus random larger ones; the known finding D22 in a fresh interpreter; parameter/representation audit (one case each): chunks as dict of arrays / list / int32 ids / int32 and float64 values / with an unrequested column, columns=None, dtypes None / partial / float default, ids listed in columns, default mergebuf, max_merge 0 and -1, temp_dir None (location observed with delete_temp=False) and \"-\", check flags off, output URI with group, mode=a / --append next to an existing cooler, `cooler load` --one-based / duplex / --count-as-float / --field / bg2 / chromsizes:binsize bins, `cload pairs` --zero-based / BED bins / permuted field numbers / duplex / --field score. non-trivial = a pixel occurs in >= 2 chunks, or >= 2 merge epochs, or two passes; distinct by input hash")
+        "arrays of length 2..3 (increments 0..2) x bufsize 1..nnz+1 plus random larger ones; the known finding D22 in a fresh interpreter; parameter/representation audit (one case each): chunks as dict of arrays / list / int32 ids / int32 and float64 values / with an unrequested column, columns=None, dtypes None / partial / float default, ids listed in columns, default mergebuf, max_merge 0 and -1, temp_dir None (location observed with delete_temp=False) and \"-\", check flags off, output URI with group, mode=a / --append next to an existing cooler, `cooler load` --one-based / duplex / --count-as-float / --field / bg2 / chromsizes:binsize bins, `cload pairs` --zero-based / BED bins / permuted field numbers / duplex / --field score; a HISTORY pass in one process (12 ingests): the same output path, temp dir, bin-table objects, chunk list, columns / dtypes objects, sanitizer / aggregator objects and agg dict across consecutive ingests whose records, bin table (incl. same chromsizes and nbins), columns and storage mode change, chunks as generator / list / tuple / iterator, caller objects asserted unchanged; the bin table of every output is part of the observable. non-trivial = a pixel occurs in >= 2 chunks, or >= 2 merge epochs, or two passes; distinct by input hash")
 TRUSTED = ["pandas concat/groupby/sort_values, np.linspace, tempfile.NamedTemporaryFile and h5py are observed through create_cooler, modelled by Model/Merge.v",
            "for the CLI runs the harness itself turns text lines into per-chunk records (bin assignment, upper-triangle reflection, per-chunk aggregation for cload): "
            "that is the ingest pipeline of C05, not part of this property"]
@@ -740,6 +740,7 @@ def history_pass(ctx, root):
                             d = objs.setdefault(st["aggdict"], {"score": "sum"})
                             san = sanitize_pixels(bins, tril_action="reflect", sort=False)
                             aggr = aggregate_records(sort=True, count=st["count_records"], agg=d)
+                            agg_dict_ok = d == {"score": "sum"}        # D35 (repaired): the caller's agg dict was written to
                         frames = [aggr(san(f)) for f in frames]
                     else:
                         frames = [chunk_frame(ch, cols) for ch in chunks]
@@ -757,7 +758,7 @@ def history_pass(ctx, root):
                                          mergebuf=st["mergebuf"], max_merge=st["max_merge"], temp_dir=td, **kw)
                     got = G.obs_of_raw(G.read_raw(out, names))
                     got["temp_left"] = G.listdir_sorted(td)
-                    got["caller_args_unchanged"] = (snap[0] == kw["columns"] and snap[1] == kw["dtypes"] and bins.equals(snap[3])
+                    got["caller_args_unchanged"] = (("aggdict" not in st or agg_dict_ok) and snap[0] == kw["columns"] and snap[1] == kw["dtypes"] and bins.equals(snap[3])
                                                     and all(a.equals(b) for a, b in zip(snap[2], frames)))
         except BaseException as e:  # noqa: BLE001
             if isinstance(e, (KeyboardInterrupt, SystemExit)):
